@@ -242,6 +242,31 @@ def keys_and_wiring(ctx):
                                  f'surface without that keyword raises '
                                  f'KeyError in the converter',
                                  construct=f'SURF default {k!r}'))
+    from ..match import find as _find
+    want_defaults = {'type': "'standard'", 'is_stop': 'False',
+                     'conic': ('0.0', '0'), 'material': "'air'"}
+    for k_, v_ in want_defaults.items():
+        hits = [st for st in ast.walk(sh.node) if isinstance(st, ast.Assign)
+                and unparse(st.targets[0]) ==
+                f"self._current_surf_data['{k_}']"]
+        vals = (v_,) if isinstance(v_, str) else v_
+        if hits and unparse(hits[0].value) in vals:
+            res.ok(f'SURF default {k_!r} = {unparse(hits[0].value)}')
+        else:
+            res.fail(ctx.finding(
+                'ZMX-KEYS', sh, hits[0] if hits else sh.node,
+                f'a new surface block starts with {k_!r} = '
+                f'{unparse(hits[0].value) if hits else "nothing"}, not '
+                f'{vals[0]}: surfaces without that keyword in the file get a '
+                f'value that was not written',
+                construct=f'SURF default value {k_!r}'))
+    if _find(sh, 'self._current_surf_data = {}'):
+        res.ok('every SURF block starts a fresh dictionary')
+    else:
+        res.fail(ctx.finding('ZMX-KEYS', sh, sh.node,
+                             'surface blocks share one dictionary: every '
+                             'stored surface ends up with the data of the '
+                             'last one', construct='SURF fresh dictionary'))
     src = Code(P, sh)
     if "self.data['surfaces'][self._current_surf] = self._current_surf_data" \
             in src and 'self._current_surf += 1' in src and \
